@@ -54,9 +54,13 @@ def hist_replay(f: Dict[str, Any], layer: Dict[str, Any], msgs: List[str]) -> Di
     }
 
 
-def use_hist_layer(v: fw.Verdict, prop: str, layer: Dict[str, Any], mon_props: List[str]) -> bool:
+def use_hist_layer(v: fw.Verdict, prop: str, layer: Dict[str, Any], mon_props: List[str],
+                   after_apply: Optional[List[str]] = None) -> bool:
     """feed monitor failures (→ violations) and sliced disagreements (→ broken correspondence) of a
-    history layer into the verdict; returns True when the correspondence slice is intact"""
+    history layer into the verdict; returns True when the correspondence slice is intact.
+    `after_apply` (C09): state monitors of other properties that fail right after an instruction
+    phase or a single-instruction probe - an accepted instruction whose side effects are incomplete
+    leaves counters / assignments / locations inconsistent (the state before the phase passed them)"""
     slice_re = re.compile(SLICE.get(prop, r"."))
     corr_ok = True
     for f in layer["findings"]:
@@ -64,6 +68,11 @@ def use_hist_layer(v: fw.Verdict, prop: str, layer: Dict[str, Any], mon_props: L
             mine = [m for m in f["text"] if any(m.startswith(p + "/") for p in mon_props)]
             for m in mine:
                 v.violation(sig_of(m), m, hist_replay(f, layer, mine))
+            if after_apply and str(f.get("id", "")).rsplit(":", 1)[-1] in ("apply", "probe"):
+                side = [m for m in f["text"] if any(m.startswith(p + "/") for p in after_apply)]
+                for m in side:
+                    msg = f"{prop}/side-effects| an applied instruction left the state inconsistent (not all of its side effects took place): {m}"
+                    v.violation(f"{prop}/side-effects", msg, hist_replay(f, layer, [msg]))
         elif f["kind"] == "diff":
             mine = [d for d in f["text"] if slice_re.search(d.split(":", 1)[0]) or d.startswith(("structure differs", "model has extra", "impl has extra", "event", "model:", "impl:"))]
             if mine:
@@ -233,7 +242,7 @@ def use_simple_layer(v: fw.Verdict, prop: str, layer: Dict[str, Any], layer_name
                   "how_to_replay": f"./check {prop} --replay <this file> (re-runs the recorded case through the current /repo code and the model)"}
         if f["kind"] == "mon":
             for m in f["text"]:
-                if any(m.startswith(p + "/") for p in mon_props):
+                if any(m.startswith(p + "/") or m.startswith(p + "|") for p in mon_props):
                     v.violation(sig_of(m), m, replay)
         elif f["kind"] == "diff":
             corr_ok = False
@@ -329,21 +338,24 @@ def check_C08(tier: str, seed: int) -> int:
 STACK_BUDGET = {"quick": 48, "thorough": 1000}
 
 
+C09_STATE_MONITORS = ["C02", "C07", "C08", "C17"]
+
+
 @register("C09")
 def check_C09(tier: str, seed: int) -> int:
     v = fw.Verdict("C09", tier, seed, "proof")
     ps = fw.ProofStatus("C09", ["Properties.C09"])
     n_hist, steps = HIST_BUDGET[tier]
     hl = layers.hist_layer(seed, n_hist, steps)
-    ok1 = use_hist_layer(v, "C09", hl, ["C09"])
+    ok1 = use_hist_layer(v, "C09", hl, ["C09"], after_apply=C09_STATE_MONITORS)
     sl = layers.stack_layer(seed, STACK_BUDGET[tier])
     ok2 = use_simple_layer(v, "C09", sl, "stack", ["C09"])
     n_b, steps_b = BASE_BUDGET[tier]
     bl = layers.hist_layer(seed, n_b, steps_b, BASE_OPTS)      # probes under plug contention behind a base
-    ok2 = use_hist_layer(v, "C09", bl, ["C09"]) and ok2
+    ok2 = use_hist_layer(v, "C09", bl, ["C09"], after_apply=C09_STATE_MONITORS) and ok2
     if (not ps.ok or not ok1 or not ok2) and not v.violations:
         big = layers.hist_layer(seed + 7919, n_hist * 6, steps)
-        use_hist_layer(v, "C09", big, ["C09"])
+        use_hist_layer(v, "C09", big, ["C09"], after_apply=C09_STATE_MONITORS)
         v.notes.append(f"escalated search: {big['records']} further records")
     if not ps.ok:
         v.broken(f"proof obligation for C09: {ps.failing_obligation()}", {"theorem_or_build": ps.failing_obligation()})
@@ -367,7 +379,7 @@ def check_C09(tier: str, seed: int) -> int:
 
 @register("C03")
 def check_C03(tier: str, seed: int) -> int:
-    return control_check("C03", tier, seed, with_timed=True, assumptions=[
+    return control_check("C03", tier, seed, with_timed=True, with_osm=True, assumptions=[
         "request ids are unique in the input and never reused",
         "the whole-stream conservation law is enforced by the Lean ledger automaton (Hive.Ledger) on implementation traces; the Lean theorems are the state-level lemmas listed in Properties/C03.lean (partial: no theorem over unbounded event streams yet)"])
 
@@ -408,6 +420,7 @@ def check_C18(tier: str, seed: int) -> int:
     return v.finish()
 
 
+EVENTS_BUDGET = {"quick": 48, "thorough": 1200}
 MECH_BUDGET = {"quick": 1600, "thorough": 100000}
 
 
@@ -425,12 +438,23 @@ def energy_check(prop: str, tier: str, seed: int, text_rule: str, assumptions: L
         big2 = layers.hist_layer(seed + 7919, n_hist * 4, steps)
         use_hist_layer(v, prop, big2, [prop])
         v.notes.append(f"escalated search: {big['cases']} further function cases, {big2['records']} further records")
+    el = None
+    if prop == "C05":
+        # what the stations REPORT as dispensed: the written event log of whole runs, parsed back (the
+        # station load of a step is the sum of that step's charge events there; charge events add up to
+        # what the vehicles gained)
+        el = layers.events_layer(seed, EVENTS_BUDGET[tier])
+        use_simple_layer(v, prop, el, "events", ["C19/station-load", "C19/energy-gained"])
     if not ps.ok:
         v.broken(f"proof obligation for {prop}: {ps.failing_obligation()}", {"theorem_or_build": ps.failing_obligation()})
     cov = {**fw.proof_coverage(ps), **hist_coverage(hl)}
     cov["evaluations"] = ml["cases"] + hl["records"]
     cov["distinct_nontrivial"] = len(ml["shapes"])
     cov["rule"] = text_rule
+    if el is not None:
+        cov["whole_runs"] = el["cases"]
+        cov["rule"] += ("; plus whole runs of the packaged scenarios through the real file-writing handlers: the parsed-back log must show, per station and step, a station load equal "
+                        "to the sum of that step's charge events there, and per vehicle charge events adding up to the energy gained (Hive.EventLedger.violEvents)")
     cov["samples"] = [ml["sample"]] + cov.get("samples", [])
     cov["function_cases"] = ml["cases"]
     cov["trusted_base"] = cov["trusted_base"] + ["numpy.interp is modelled (clamped piecewise-linear) and compared through the real TabularPowertrain / TabularPowercurve on generated tables"]
@@ -688,7 +712,6 @@ def check_C14(tier: str, seed: int) -> int:
         "no parallel links between one ordered junction pair (the link table keeps one link per pair)"])
 
 
-EVENTS_BUDGET = {"quick": 48, "thorough": 1200}
 
 
 @register("C19")
